@@ -199,6 +199,48 @@ def _inline_combinator(caller, bi, kind, closure_fn, caps):
     return True
 
 
+def _inline_two_arms(caller, bi, fam, value_cl, other_cl):
+    """`dst = res.map_or_else(other, value)`  ->  switch discriminant(res) { Ok/Some(x): dst = value(x) ; Err(e)/None: dst = other(e) / other() }.
+    value_cl / other_cl: (closure fn, capture operands)"""
+    blk = caller["blocks"][bi]
+    c = blk["term"][1]
+    target, dst, line = c.get("t"), c["dst"], c.get("line")
+    subject = c["args"][0]
+    if subject[0] not in ("c", "m") or subject[1]["p"] or target is None: return False
+    for (cf, caps) in (value_cl, other_cl):
+        if any(cap[0] not in ("c", "m") for cap in caps): return False
+    sl = subject[1]["l"]
+    adt = "std::option::Option" if fam == "Option" else "std::result::Result"
+    val_variant, val_idx = ("Some", 1) if fam == "Option" else ("Ok", 0)
+    dl = len(caller["locals"]); caller["locals"].append({"ty": "isize", "head": "isize", "name": None})
+    entries = []
+    for which, (cf, caps) in (("value", value_cl), ("other", other_cl)):
+        lo = len(caller["locals"]); bo = len(caller["blocks"])
+        for l in cf["locals"]:
+            caller["locals"].append(copy.deepcopy(l))
+        n_cl = len(cf["blocks"])
+        entry_b, join_b = bo + n_cl, bo + n_cl + 1
+        for cb in cf["blocks"]:
+            nb = {"cleanup": cb["cleanup"], "stmts": [_subst_captures(_remap(s_, lo, bo), lo + 1, caps) for s_ in cb["stmts"]]}
+            t = cb["term"]
+            nb["term"] = ["Goto", join_b] if t[0] == "Return" else _subst_captures(_remap_term(copy.deepcopy(t), lo, bo), lo + 1, caps)
+            caller["blocks"].append(nb)
+        pre = []
+        if cf.get("argc", 1) >= 2:
+            if which == "value": payload = {"l": sl, "p": [["d", val_variant, val_idx], ["f", "0", 0, adt]]}
+            else: payload = {"l": sl, "p": [["d", "Err", 1], ["f", "0", 0, adt]]}
+            pre.append(["A", {"l": lo + 2, "p": []}, ["Use", ["m", payload]], line])
+        caller["blocks"].append({"cleanup": False, "stmts": pre, "term": ["Goto", bo]})                                                                      # entry_b
+        caller["blocks"].append({"cleanup": False, "stmts": [["A", copy.deepcopy(dst), ["Use", ["m", {"l": lo, "p": []}]], line]], "term": ["Goto", target]})  # join_b
+        entries.append(entry_b)
+    blk["stmts"].append(["A", {"l": dl, "p": []}, ["Discr", {"l": sl, "p": []}], line])
+    blk["term"] = ["Switch", ["m", {"l": dl, "p": []}], [[1 - val_idx, entries[1]]], entries[0], line, "isize"]
+    return True
+
+
+TWO_ARMS = {"std::result::Result::map_or_else": "Result", "std::option::Option::map_or_else": "Option"}
+
+
 def _inline_for_each(caller, bi, closure_fn, caps):
     """`dst = iter.for_each(closure)`  ->  `loop { match Iterator::next(&mut iter) { Some(x) => <closure body>(x), None => break } }`"""
     blk = caller["blocks"][bi]
@@ -249,9 +291,22 @@ def inline_new_closures(d, ref):
     for f in d["fns"]:
         if "::{closure#" in f["key"] and f.get("kind") == "Closure":
             o = f["key"].rsplit("::{closure#", 1)[0]; count_now[o] = count_now.get(o, 0) + 1
+    expanded = set()
+    def fresh(ck):
+        owner = ck.rsplit("::{closure#", 1)[0]
+        return not (ck in known and count_now.get(owner, 0) == count_ref.get(owner, 0))
     for f in list(d["fns"]):
         for bi in range(len(f["blocks"])):
             t = f["blocks"][bi]["term"]
+            if t[0] == "Call" and (t[1].get("f") or "") in TWO_ARMS and len(t[1]["args"]) == 3:
+                lo_ = _closure_literal(f, t[1]["args"][1]); lv_ = _closure_literal(f, t[1]["args"][2])
+                if lo_ and lv_ and (fresh(lo_[0]) or fresh(lv_[0])):
+                    co_, cv_ = by_key.get(lo_[0]), by_key.get(lv_[0])
+                    if co_ and cv_ and len(co_) == 1 and len(cv_) == 1 and not co_[0].get("is_coroutine") and not cv_[0].get("is_coroutine"):
+                        if _inline_two_arms(f, bi, TWO_ARMS[t[1]["f"]], (cv_[0], lv_[1]), (co_[0], lo_[1])):
+                            expanded.update((lo_[0], lv_[0]))
+                            notes.append(f"expanded {t[1]['f'].split('::')[-1]}(..) in place (closures not part of the function set the rules were confirmed on)")
+                continue
             if t[0] != "Call" or len(t[1]["args"]) != 2: continue
             direct = (t[1].get("f") or "") in FN_CALLS
             foreach = (t[1].get("f") or "") == "std::iter::Iterator::for_each" or (t[1].get("fname") == "for_each" and (t[1].get("trait") or "").endswith("Iterator"))
@@ -265,14 +320,20 @@ def inline_new_closures(d, ref):
             if not cf or len(cf) != 1 or cf[0].get("is_coroutine") or len(cf[0]["blocks"]) > MAX_BLOCKS: continue
             if foreach:
                 if _inline_for_each(f, bi, cf[0], caps):
+                    expanded.add(ck)
                     notes.append(f"expanded for_each({ck.split('::', 1)[-1][-60:]}) into the loop it stands for (closure not part of the function set the rules were confirmed on)")
                 continue
             if direct:
                 if _inline_closure_call(f, bi, cf[0], caps):
+                    expanded.add(ck)
                     notes.append(f"expanded the call of closure {ck.split('::', 1)[-1][-60:]} in place (closure not part of the function set the rules were confirmed on)")
                 continue
             if _inline_combinator(f, bi, COMBINATORS[t[1]["f"]], cf[0], caps):
+                expanded.add(ck)
                 notes.append(f"expanded {t[1]['f'].split('::')[-1]}({ck.split('::', 1)[-1][-60:]}) in place (closure not part of the function set the rules were confirmed on)")
+    if expanded:
+        # the expanded closure bodies now live in their callers; the closure functions themselves are no longer called from anywhere
+        d["fns"] = [f for f in d["fns"] if f["key"] not in expanded]
     return notes
 
 
